@@ -23,13 +23,19 @@ ISA_FLAGS = {
     "avx": ["-mavx"],
     "avx2": ["-mavx2", "-mfma"],
     "avx512": ["-mavx512f", "-mavx512cd", "-mavx512bw", "-mavx512dq", "-mavx512vl", "-mavx2", "-mfma"],
+    # AVX-512 Foundation only (no DQ/VL/BW, no __FMA__): the library's #else branches of FASTOR_AVX512DQ_IMPL / _VL_ / _BW_.
+    # Not part of ALL_ISAS (the property texts name six ISA classes); properties opt in (C08, C02).
+    "avx512f": ["-mavx512f"],
 }
+# development aid: VERIF_ISA_OVERRIDE="avx512=-mavx512f" replaces the flag set of one ISA class for a trial run
+for _ov in filter(None, os.environ.get("VERIF_ISA_OVERRIDE", "").split(";")):
+    _k, _v = _ov.split("=", 1); ISA_FLAGS[_k] = _v.split()
 ISA_CPU_NEEDS = {"scalar": [], "sse2": ["sse2"], "sse42": ["sse4_2"], "avx": ["avx"], "avx2": ["avx2", "fma"],
-                 "avx512": ["avx512f", "avx512cd", "avx512bw", "avx512dq", "avx512vl"]}
+                 "avx512": ["avx512f", "avx512cd", "avx512bw", "avx512dq", "avx512vl"], "avx512f": ["avx512f"]}
 ALL_ISAS = ["scalar", "sse2", "sse42", "avx", "avx2", "avx512"]
 # SIMD lanes of the default ABI per ISA and element size in bytes (used for coverage labels / NT rules)
 def lanes(isa, elbytes):
-    bits = {"scalar": 0, "sse2": 128, "sse42": 128, "avx": 256, "avx2": 256, "avx512": 512}[isa]
+    bits = {"scalar": 0, "sse2": 128, "sse42": 128, "avx": 256, "avx2": 256, "avx512": 512, "avx512f": 512}[isa]
     return max(1, bits // (8 * elbytes))
 
 _cpuflags = None
